@@ -366,3 +366,206 @@ WORKLOADS = {
     "plan_coefs": (draw_plan_params, wl_plan_coefs),
     "e2e": (draw_e2e_params, wl_e2e),
 }
+
+
+# ---------------------------------------------------------------------------------
+# direct ctypes workloads for entry points without a (runnable) Python caller here:
+# the FFT-free helpers of pbc_tools.c (their callers need FFTW), the VXC_* routines of
+# libnumint (no Python caller in this version) and the GPAW-only ATC helpers.  Arguments
+# follow the conventions of the package's own call sites.
+# ---------------------------------------------------------------------------------
+def _vp(a):
+    return a.ctypes.data_as(ctypes.c_void_p)
+
+
+def draw_vxc_params(rng):
+    return {"n": rng.choice([1, 2, 3, 5, 8, 16, 17, 33, 61, 64]), "m": rng.choice([1, 7, 20, 55]), "mul": rng.choice([0.5, 1.0, 2.0]), "dseed": rng.below(10**6)}
+
+
+def wl_vxc_numint(p):
+    from ciderpress.lib import load_library
+
+    lib = load_library("libnumint")
+    r = np.random.default_rng(p["dseed"])
+    n, m = p["n"], p["m"]
+    coords = np.ascontiguousarray(r.normal(size=(n, 3)))
+    vvcoords = np.ascontiguousarray(r.normal(size=(m, 3)))
+    a = np.abs(r.normal(size=n)) + 0.2
+    a2 = np.abs(r.normal(size=n)) + 0.2
+    vva = np.abs(r.normal(size=m)) + 0.2
+    vvf = r.normal(size=m)
+    grad = np.ascontiguousarray(r.normal(size=(n, 3)))
+    dedf = r.normal(size=m)
+    mul = ctypes.c_double(p["mul"])
+    cn, cm = ctypes.c_int(n), ctypes.c_int(m)
+    out = {}
+    vvt = r.normal(size=m)
+    sigs = {
+        "VXC_feat_texp": lambda F, U, W: [_vp(F), _vp(U), _vp(W), _vp(vva), _vp(a), _vp(vvf), _vp(vvcoords), _vp(coords), cm, cn, mul],
+        "VXC_feat_texp2": lambda F, U, W: [_vp(F), _vp(U), _vp(W), _vp(vva), _vp(a), _vp(vvf), _vp(vvcoords), _vp(coords), cm, cn, mul, _vp(grad)],
+        "VXC_feat_vj": lambda F, U, W: [_vp(F), _vp(U), _vp(W), _vp(vva), _vp(a), _vp(vvf), _vp(vvcoords), _vp(coords), cm, cn, mul, _vp(grad)],
+        "VXC_feat_vk": lambda F, U, W: [_vp(F), _vp(U), _vp(W), _vp(vva), _vp(a), _vp(vvf), _vp(vvcoords), _vp(coords), cm, cn, mul, _vp(grad)],
+        "VXC_feat_vg": lambda F, U, W: [_vp(F), _vp(U), _vp(W), _vp(vva), _vp(a), _vp(vvf), _vp(vvcoords), _vp(coords), cm, cn, _vp(grad)],
+        "VXC_feat_vh": lambda F, U, W: [_vp(F), _vp(U), _vp(W), _vp(vva), _vp(vvt), _vp(vvf), _vp(vvcoords), _vp(coords), cm, cn, _vp(grad)],
+        "VXC_feat_vg2": lambda F, U, W: [_vp(F), _vp(U), _vp(W), _vp(vva), _vp(vvt), _vp(vvf), _vp(vvcoords), _vp(coords), cm, cn, _vp(grad)],
+        "VXC_feat_vi": lambda F, U, W: [_vp(F), _vp(U), _vp(W), _vp(vva), _vp(vvf), _vp(vvcoords), _vp(coords), cm, cn, _vp(grad)],
+    }
+    for name, mk in sigs.items():
+        F = np.zeros(n * 12)
+        U = np.zeros(n)
+        W = np.zeros(n)
+        getattr(lib, name)(*mk(F, U, W))
+        out[name + ".F"] = F
+        out[name + ".U"] = U
+        out[name + ".W"] = W
+    F = np.zeros(n * 3)
+    lib.VXC_feat_ve(_vp(F), _vp(vva), _vp(a), _vp(a2), _vp(vvf), _vp(vvcoords), _vp(coords), cm, cn)
+    out["VXC_feat_ve.F"] = F
+    # "derivative" routines: roles of the two grids are swapped (outputs over the first grid)
+    for name in ("VXC_dedrho_texp2", "VXC_deriv_l0"):
+        DF = np.zeros(n)
+        DA = np.zeros(n)
+        dedf_n = r.normal(size=(m, 6))
+        getattr(lib, name)(_vp(DF), _vp(DA), _vp(np.ascontiguousarray(dedf_n)), _vp(vva), _vp(a), _vp(vvcoords), _vp(coords), cm, cn, mul)
+        out[name + ".DF"] = DF
+        out[name + ".DA"] = DA
+    for name, w in (("VXC_deda1_texp2", 6), ("VXC_feat_l0", 3)):
+        F = np.zeros(n * w)
+        DF = np.zeros(n * w)
+        getattr(lib, name)(_vp(F), _vp(DF), _vp(vva), _vp(a), _vp(vvf), _vp(vvcoords), _vp(coords), cm, cn, mul)
+        out[name + ".F"] = F
+        out[name + ".DF"] = DF
+    return out
+
+
+def draw_pbc_params(rng):
+    g = rng.choice([2, 3, 4, 5, 6, 8])
+    return {"fftg": [g, rng.choice([2, 3, 4, 5, 7]), g], "num_fft": rng.choice([1, 2, 3]), "dim1": rng.choice([1, 2, 3, 7, 16, 33]), "dim2": rng.choice([1, 2, 5, 16, 40]), "natm": rng.choice([1, 2, 3]), "nao": rng.choice([1, 3, 8]), "ngrids": rng.choice([1, 5, 127, 128, 129, 300]), "dseed": rng.below(10**6)}
+
+
+def wl_pbc_helpers(p):
+    import ciderpress.dft.plans  # noqa: F401  (loads libmcider through the package's seam)
+    from ciderpress.lib import load_library
+
+    lib = load_library("libmcider")
+    r = np.random.default_rng(p["dseed"])
+    out = {}
+
+    def cplx(*shape):
+        return np.ascontiguousarray(r.normal(size=shape) + 1j * r.normal(size=shape))
+
+    d1, d2 = p["dim1"], p["dim2"]
+    a, b, c = r.normal(size=(d1, d2)), r.normal(size=d2), r.normal(size=(d1, d2))
+    lib.parallel_mul_add_d(_vp(a), _vp(b), _vp(c), ctypes.c_int(d1), ctypes.c_int(d2))
+    out["mul_add_d"] = c
+    az, bz, cz = cplx(d1, d2), cplx(d2), cplx(d1, d2)
+    lib.parallel_mul_add_z(_vp(az), _vp(bz), _vp(cz), ctypes.c_int(d1), ctypes.c_int(d2))
+    out["mul_add_z"] = cz.view(np.float64)
+    cz2 = np.zeros((d1, d2), dtype=np.complex128)
+    lib.parallel_mul_z(_vp(az), _vp(bz), _vp(cz2), ctypes.c_int(d1), ctypes.c_int(d2))
+    out["mul_z"] = cz2.view(np.float64)
+    cz3 = np.zeros((d1, d2), dtype=np.complex128)
+    lib.parallel_mul_dz(_vp(az), _vp(b), _vp(cz3), ctypes.c_int(d1), ctypes.c_int(d2))
+    out["mul_dz"] = cz3.view(np.float64)
+    cj = cplx(d1 * d2)
+    lib.fast_conj(_vp(cj), ctypes.c_size_t(cj.size))
+    out["conj"] = cj.view(np.float64)
+    fftg = np.asarray(p["fftg"], dtype=np.int32)
+    nf = p["num_fft"]
+    zs = fftg[2] // 2 + 1
+    xr = np.ascontiguousarray(r.normal(size=(nf, fftg[0], fftg[1], 2 * zs)))
+    lib.prune_r2c_real(_vp(xr), _vp(fftg), ctypes.c_int(nf))
+    out["prune_real"] = xr
+    xc = cplx(nf, fftg[0], fftg[1], zs)
+    lib.prune_r2c_complex(_vp(xc), _vp(fftg), ctypes.c_int(nf))
+    out["prune_cplx"] = xc.view(np.float64)
+    xw = cplx(nf * fftg[0] * fftg[1], zs)
+    lib.weight_symm_gpts(_vp(xw), ctypes.c_size_t(nf * fftg[0] * fftg[1]), ctypes.c_size_t(int(fftg[2])))
+    out["weight_symm"] = xw.view(np.float64)
+    for halfc in (0, 1):
+        z = zs if halfc else fftg[2]
+        xe = cplx(nf, fftg[0], fftg[1], z)
+        lib.zero_even_edges_fft(_vp(xe), ctypes.c_int(nf), _vp(fftg), ctypes.c_int(halfc))
+        out["zero_edges%d" % halfc] = xe.view(np.float64)
+        fftg2 = np.asarray([fftg[0] + 2, fftg[1] + 1, fftg[2] + 2], dtype=np.int32)
+        z2 = (fftg2[2] // 2 + 1) if halfc else fftg2[2]
+        x1 = cplx(nf, fftg[0], fftg[1], z)
+        x2 = np.zeros((nf, fftg2[0], fftg2[1], z2), dtype=np.complex128)
+        lib.map_between_fft_meshes(_vp(x1), _vp(fftg), _vp(x2), _vp(fftg2), ctypes.c_double(0.5), ctypes.c_int(halfc), ctypes.c_int(nf))
+        out["map_up%d" % halfc] = x2.view(np.float64)
+        x3 = np.zeros((nf, fftg[0], fftg[1], z), dtype=np.complex128)
+        lib.map_between_fft_meshes(_vp(x2), _vp(fftg2), _vp(x3), _vp(fftg), ctypes.c_double(2.0), ctypes.c_int(halfc), ctypes.c_int(nf))
+        out["map_down%d" % halfc] = x3.view(np.float64)
+    ng, nao, natm = p["ngrids"], p["nao"], p["natm"]
+    ao = cplx(nao, ng)
+    atom_list = np.asarray(r.integers(0, natm, nao), dtype=np.int32)
+    ang_list = np.asarray(r.integers(0, 4, nao), dtype=np.int32)
+    gcoords = np.ascontiguousarray(r.normal(size=(3, ng)))
+    acoords = np.ascontiguousarray(r.normal(size=(natm, 3)))
+    lib.apply_orb_phases(_vp(ao), _vp(atom_list), _vp(ang_list), _vp(gcoords), _vp(acoords), ctypes.c_int(natm), ctypes.c_int(nao), ctypes.c_int(ng))
+    out["orb_phases"] = ao.view(np.float64)
+    ncpa, nalpha = 2, 3
+    pv = np.zeros((ncpa, nalpha, ng))
+    conv = np.ascontiguousarray(r.normal(size=(nao, ng)))
+    cr = np.ascontiguousarray(r.normal(size=(ncpa, nao, ng)))
+    lib.contract_convolution_d(_vp(pv), _vp(conv), _vp(cr), ctypes.c_int(ncpa), ctypes.c_int(nao), ctypes.c_int(ng), ctypes.c_int(nalpha))
+    out["contract_d"] = pv
+    pvz = np.zeros((ncpa, nalpha, ng), dtype=np.complex128)
+    convz, crz = cplx(nao, ng), cplx(ncpa, nao, ng)
+    lib.contract_convolution_z(_vp(pvz), _vp(convz), _vp(crz), ctypes.c_int(ncpa), ctypes.c_int(nao), ctypes.c_int(ng), ctypes.c_int(nalpha))
+    out["contract_z"] = pvz.view(np.float64)
+    G2 = np.abs(r.normal(size=ng)) * 10
+    cv = np.zeros(ng)
+    lib.recip_conv_kernel_gaussdiff(_vp(cv), _vp(G2), ctypes.c_double(0.7), ctypes.c_double(1.3), ctypes.c_int(ng))
+    out["gaussdiff"] = cv
+    mesh = np.asarray([4, 3, 5], dtype=np.int32)
+    lat = np.ascontiguousarray(np.diag([5.0, 6.0, 7.0]) + 0.1 * r.normal(size=(3, 3)))
+    vq = r.normal(size=int(mesh.prod()))
+    Gvec = np.ascontiguousarray(r.normal(size=(ng, 3)) * 2)
+    maxqv = np.asarray([2.5, 2.5, 2.5])
+    cw = np.zeros(ng)
+    lib.recip_conv_kernel_ws(_vp(cw), _vp(vq), _vp(Gvec), _vp(lat), _vp(maxqv), _vp(mesh), ctypes.c_int(ng), ctypes.c_int(vq.size))
+    out["ws_kernel"] = cw
+    return out
+
+
+def draw_atc_params(rng):
+    return {"mol": rng.choice(TINY_MOLS), "lmax": rng.choice([1, 2, 3, 4]), "beta": rng.choice([2.0, 2.4, 3.0]), "nq": rng.choice([1, 2, 5, 9]), "nk": rng.choice([1, 3, 8, 17]), "nlm": rng.choice([1, 4, 9]), "nspin": rng.choice([1, 2]), "dseed": rng.below(10**6)}
+
+
+def wl_atc_misc(p):
+    """GPAW-only ATC helpers: solve_atc_coefs_arr, atc_reciprocal_convolution"""
+    from pyscf import gto
+
+    from ciderpress.dft.lcao_convolutions import ATCBasis, libcider
+    from ciderpress.pyscf.nldf_convolutions import aug_etb_for_cider, get_gamma_lists_from_mol
+    from cidersim import zoo
+
+    r = np.random.default_rng(p["dseed"])
+    mol = zoo.make_mol(p["mol"], "sto-3g")
+    basis = aug_etb_for_cider(mol, lmax=p["lmax"], beta=p["beta"])
+    mol2 = gto.M(atom=mol.atom, basis=basis, spin=mol.spin, charge=mol.charge, unit=mol.unit, verbose=0)
+    atco = ATCBasis(*get_gamma_lists_from_mol(mol2))
+    out = {}
+    nq = p["nq"]
+    arr = np.ascontiguousarray(r.normal(size=(atco.nao, nq)))
+    libcider.solve_atc_coefs_arr(atco.atco_c_ptr, _vp(arr), ctypes.c_int(nq))
+    out["solve_arr"] = arr
+    nspin, nk, nlm = p["nspin"], p["nk"], p["nlm"]
+    x = np.ascontiguousarray(r.normal(size=(nspin, nk, nlm, nq)))
+    y = np.zeros_like(x)
+    k_g = np.ascontiguousarray(np.abs(r.normal(size=nk)) * 3)
+    alphas = np.ascontiguousarray(0.3 * 1.8 ** np.arange(nq))
+    norms = np.ascontiguousarray((np.pi / (2 * alphas)) ** -0.75)
+    libcider.atc_reciprocal_convolution(_vp(x), _vp(y), _vp(k_g), _vp(alphas), _vp(norms), ctypes.c_int(nspin), ctypes.c_int(nk), ctypes.c_int(nlm), ctypes.c_int(nq))
+    out["recip_conv"] = y
+    return out
+
+
+WORKLOADS.update(
+    {
+        "vxc_numint": (draw_vxc_params, wl_vxc_numint),
+        "pbc_helpers": (draw_pbc_params, wl_pbc_helpers),
+        "atc_misc": (draw_atc_params, wl_atc_misc),
+    }
+)
